@@ -298,6 +298,8 @@ def generate(rng, k, tier="quick"):
             ops.append({"op": "CHECK_NEAR", "a": b, "b": c})
         elif r < 0.76:
             ops.append({"op": "CHECK_FAR", "kind": rng.choice(["Point", "Vector"]), "c": X.ser(tuple(F(rng.randint(-64, 64), 8) for _ in range(3))), "coord": rng.randrange(3), "sign": rng.choice([-1, 1]), "mult": rng.choice(["9/2", "5", "5", "8", "100"]), "others": [rng.choice([-1, 0, 0, 1]) for _ in range(3)]})
+        elif r < 0.80:
+            ops.append({"op": "CHECK_DEGENERATE", "ctor": rng.choice(["Segment_PP", "Segment_PV", "HalfLine_PP", "HalfLine_PV", "Line_PP"]), "c": X.ser(tuple(F(rng.randint(-32, 32), 8) for _ in range(3))), "coord": rng.randrange(3), "sign": rng.choice([-1, 1])})
         elif r < 0.84:
             ops.append({"op": "BATTERY"})
         elif r < 0.92:
@@ -375,6 +377,11 @@ def _pair_checks(A, B, sa, sb):
     out.append(("eq:B==A", call(lambda a, b: a == b, B, A), True))
     out.append(("hash:equal", call(lambda a, b: hash(a) == hash(b), A, B), True))
     out.append(("hash:set_merges", call(lambda a, b: len({a, b}) == 1, A, B), True))
+    if t == "Vector":
+        out.append(("parallel:A.parallel(B)", call(lambda a, b: a.parallel(b), A, B), True))
+        out.append(("eq:(A-B)==zero", call(lambda a, b: (a - b) == G.Vector.zero(), A, B), True))
+        r = call(lambda a, b: a.orthogonal(b), A, B)
+        out.append(("orthogonal:A.orthogonal(B)", True if r is False else (r if isinstance(r, Raised) else "T"), True))
     if t in ("Line", "Plane"):
         out.append(("parallel:f(A,B)", call(G.parallel, A, B), True))
         out.append(("parallel:f(B,A)", call(G.parallel, B, A), True))
@@ -611,6 +618,8 @@ def execute(history, opts=None):
                 _check_near(ctx, step, M, a, b)
             elif kind == "CHECK_FAR":
                 _check_far(ctx, step, G, M, op)
+            elif kind == "CHECK_DEGENERATE":
+                _check_degenerate(ctx, step, G, M, op)
             elif kind == "BATTERY":
                 ids = sorted(world)[:8]
                 res = _battery(world, ids)
@@ -758,6 +767,41 @@ def _check_far(ctx, step, G, M, op):
     ctx.event(step, "CHECK_FAR", disc(r1) + disc(r2))
 
 
+def _check_degenerate(ctx, step, G, M, op):
+    """constructors compare their arguments with the current tolerance: two Points
+    within eps/1000 (a Vector shorter than eps/1000) are "identical" and must be
+    refused, 5 eps apart they are distinct and must be accepted"""
+    if not M.power:
+        ctx.event(step, "CHECK_DEGENERATE", "skip-nonpower")
+        return
+    c = X.vec(op["c"])
+    outs = []
+    for label, mult, want_raise in (("near", F(1, 1000), True), ("far", F(5), False)):
+        d = [F(0), F(0), F(0)]
+        d[op["coord"]] = op["sign"] * mult * M.eps
+        P0 = G.Point(*[float(x) for x in c])
+        P1 = G.Point(*[float(x + y) for x, y in zip(c, d)])
+        Vd = G.Vector(*[float(x) for x in d])
+        ctor = op["ctor"]
+        if ctor == "Segment_PP":
+            r = call(G.Segment, P0, P1)
+        elif ctor == "Segment_PV":
+            r = call(G.Segment, P0, Vd)
+        elif ctor == "HalfLine_PP":
+            r = call(G.HalfLine, P0, P1)
+        elif ctor == "HalfLine_PV":
+            r = call(G.HalfLine, P0, Vd)
+        else:
+            r = call(G.Line, P0, P1)
+        ctx.count("J5_checks")
+        ctx.count("cell:%s:degenerate_%s:j=%d" % (ctor, label, M.sig))
+        raised = isinstance(r, Raised)
+        outs.append(disc(r))
+        if raised != want_raise or (raised and r.cls != "ValueError"):
+            ctx.vio(step, "J5", "%s/%s" % (label, ctor), "ctor:" + label, "%s->%s" % ("ValueError" if want_raise else ctor.split("_")[0], disc(r)), {"j": M.sig, "c": op["c"], "coord": op["coord"]})
+    ctx.event(step, "CHECK_DEGENERATE", ",".join(outs))
+
+
 def _result(ctx, history):
     import hashlib
 
@@ -771,7 +815,7 @@ def _result(ctx, history):
     for op in ops:
         if op["op"] in ("SET_EPS", "SET_SIG"):
             nondefault = op["j"] not in (None, 10)
-        elif op["op"] in ("CHECK_NEAR", "CHECK_FAR", "CHECK_GETTERS", "BATTERY") and nondefault:
+        elif op["op"] in ("CHECK_NEAR", "CHECK_FAR", "CHECK_DEGENERATE", "CHECK_GETTERS", "BATTERY") and nondefault:
             nontrivial = True
     kinds = [o["op"] for o in ops]
     return {
